@@ -140,6 +140,10 @@ class Action(BaseForm):
 
         self._hash = None
 
+    def __reduce__(self):
+        """Reduce for pickling: __new__ needs the two operands."""
+        return (Action, (self._left, self._right))
+
     def ufl_function_spaces(self):
         """Get the tuple of function spaces of the underlying form."""
         if isinstance(self._right, Form):
